@@ -220,6 +220,6 @@ def units(tier):
     return [
         Unit("exhaustive-graphs", check, count=lambda t: _space(t).total, cases=_exh_cases,
              shards=(4, 16), space=_space(tier).describe() + ", empty diagonal, 0/1 float64"),
-        Unit("random-n<=14", check, strategy=lambda: cases(14), examples=(5000, 25000), shards=(8, 16)),
-        Unit("random-n<=40", check, strategy=lambda: cases(40), examples=(1200, 8000), shards=(8, 16)),
+        Unit("random-n<=14", check, strategy=lambda: cases(14), examples=(5000, 75000), shards=(8, 16)),
+        Unit("random-n<=40", check, strategy=lambda: cases(40), examples=(1200, 24000), shards=(8, 16)),
     ]
